@@ -416,3 +416,54 @@ Proof.
   rewrite Z.ltb_lt. rewrite Z.mod_small by lia. reflexivity.
 Qed.
 
+
+(* ------------------------------------------------------------------ symbolization mode parser *)
+Definition known_demangle (m : string) : bool :=
+  String.eqb m "" || String.eqb m "templates" || String.eqb m "full" || String.eqb m "none".
+
+Lemma sym_opts_known : forall opts st,
+  known_demangle (ss_demangle st) = true -> known_demangle (ss_demangle (snd (sym_opts opts st))) = true.
+Proof.
+  induction opts as [|o r IH]; intros st H; cbn [sym_opts]; [exact H|].
+  destruct (o =? "")%string; [apply IH; exact H|].
+  destruct ((o =? "none")%string || (o =? "no")%string); [exact H|].
+  destruct (o =? "local")%string; [apply IH; exact H|].
+  destruct (o =? "fastlocal")%string; [apply IH; exact H|].
+  destruct (o =? "remote")%string; [apply IH; exact H|].
+  destruct (o =? "force")%string; [apply IH; exact H|].
+  destruct ((trim_prefix "demangle=" o =? "full")%string || (trim_prefix "demangle=" o =? "none")%string
+            || (trim_prefix "demangle=" o =? "templates")%string) eqn:E.
+  - apply IH. cbn [ss_demangle]. unfold known_demangle.
+    apply Bool.orb_true_iff in E. destruct E as [E|E]; [apply Bool.orb_true_iff in E; destruct E as [E|E]|];
+      rewrite E; repeat rewrite Bool.orb_true_r; reflexivity.
+  - destruct (trim_prefix "demangle=" o =? "default")%string; apply IH; exact H.
+Qed.
+
+Lemma demangler_known_no_panic : forall m, known_demangle m = true -> is_panic (demangler_mode_to_options m) = false.
+Proof.
+  intros m H. unfold demangler_mode_to_options, known_demangle in *.
+  destruct (m =? "")%string; [reflexivity|].
+  destruct (m =? "templates")%string; [reflexivity|].
+  destruct (m =? "full")%string; [reflexivity|].
+  destruct (m =? "none")%string; [reflexivity|]. discriminate.
+Qed.
+
+Lemma symbolize_mode_no_panic : forall mode, is_panic (symbolize_mode mode) = false.
+Proof.
+  intros mode. unfold symbolize_mode.
+  pose proof (sym_opts_known (split_colon (to_lower mode)) sym_init eq_refl) as H.
+  destruct (sym_opts (split_colon (to_lower mode)) sym_init) as [early st]. cbn [snd] in H.
+  destruct early; [reflexivity|].
+  pose proof (demangler_known_no_panic _ H) as Hd.
+  destruct (demangler_mode_to_options (ss_demangle st)); cbn in *; auto.
+Qed.
+
+(* the switch does panic on any other mode: the parser's whitelist is what keeps it unreachable *)
+Lemma demangler_unknown_panics : forall m, known_demangle m = false -> is_panic (demangler_mode_to_options m) = true.
+Proof.
+  intros m H. unfold demangler_mode_to_options, known_demangle in *.
+  destruct (m =? "")%string; [discriminate|].
+  destruct (m =? "templates")%string; [discriminate|].
+  destruct (m =? "full")%string; [discriminate|].
+  destruct (m =? "none")%string; [discriminate|]. reflexivity.
+Qed.
